@@ -100,7 +100,8 @@ func recordNames(src []byte) ([]string, error) {
 }
 
 // BuildBatches generates and filters all batches for one option set.
-func BuildBatches(sup *schema.Support, cases []*schema.Case, opt int, chk *tc.Checker, batchSize int) ([]*Batch, []Dropped) {
+// When atomic is set the cases depend on each other (they are generated as one batch and never isolated).
+func BuildBatches(sup *schema.Support, cases []*schema.Case, opt int, chk *tc.Checker, batchSize int, atomic bool, firstIndex int) ([]*Batch, []Dropped) {
 	var mu sync.Mutex
 	var dropped []Dropped
 	drop := func(d Dropped) {
@@ -116,7 +117,7 @@ func BuildBatches(sup *schema.Support, cases []*schema.Case, opt int, chk *tc.Ch
 			hi = len(cases)
 		}
 		cs := cases[lo:hi]
-		b := &Batch{Opt: opt, Index: bi}
+		b := &Batch{Opt: opt, Index: firstIndex + bi}
 		try := func(cs []*schema.Case) (src []byte, phase, cat, msg string) {
 			text := sup.BatchSchema(cs).Render()
 			out, ph, err := Gen(text, opt, b.PkgName())
@@ -132,7 +133,14 @@ func BuildBatches(sup *schema.Support, cases []*schema.Case, opt int, chk *tc.Ch
 			}
 			return out, "", "", ""
 		}
-		src, phase, _, _ := try(cs)
+		src, phase, cat0, msg0 := try(cs)
+		if phase != "" && atomic {
+			for _, c := range cs {
+				drop(Dropped{CaseID: c.ID, Class: c.Class, Opt: opt, Phase: phase, Category: cat0, Msg: msg0})
+			}
+			batches[bi] = nil
+			return
+		}
 		if phase != "" {
 			// isolate: each case alone with the support definitions
 			var ok []*schema.Case
